@@ -175,7 +175,9 @@ class BidsFileGroup:
         file_dict = {}
         if self.obj_type == "tabular":
             for file in files:
-                file_dict[os.path.realpath(file)] = BidsTabularFile(file)
+                tab_file = BidsTabularFile(file)
+                if tab_file.suffix == self.suffix.lstrip('_'):  # 'physioevents' ends with 'events' but is another suffix
+                    file_dict[os.path.realpath(file)] = tab_file
         else:
             return None
         return file_dict
@@ -194,7 +196,9 @@ class BidsFileGroup:
                                       extensions=['.json'], exclude_dirs=self.exclude_dirs)
         file_dict = {}
         for file in files:
-            file_dict[os.path.realpath(file)] = BidsSidecarFile(os.path.realpath(file))
+            sidecar_file = BidsSidecarFile(os.path.realpath(file))
+            if sidecar_file.suffix == self.suffix.lstrip('_'):
+                file_dict[os.path.realpath(file)] = sidecar_file
         return file_dict
 
     def _make_sidecar_dir_dict(self):
@@ -210,6 +214,7 @@ class BidsFileGroup:
         for this_dir, dir_list in dir_dict.items():
             new_dir_list = []
             for s_file in dir_list:
-                new_dir_list.append(self.sidecar_dict[os.path.realpath(s_file)])
+                if os.path.realpath(s_file) in self.sidecar_dict:
+                    new_dir_list.append(self.sidecar_dict[os.path.realpath(s_file)])
             sidecar_dir_dict[os.path.realpath(this_dir)] = new_dir_list
         return sidecar_dir_dict
